@@ -92,11 +92,6 @@ Qed.
 
 Definition re_lit (body flags : list Z) : list Z := 47 :: body ++ 47 :: flags.
 
-Lemma firstz_app_exact {A} (a b : list A) : firstz (len a) (a ++ b) = a.
-Proof.
-  unfold firstz, len. rewrite Nat2Z.id. rewrite firstn_app, Nat.sub_diag, firstn_all. cbn. apply app_nil_r.
-Qed.
-
 Lemma slice_mid {A} (pre mid post : list A) :
   slice (pre ++ mid ++ post) (len pre) (len pre + len mid) = mid.
 Proof.
